@@ -49,6 +49,7 @@ type FrontSpec struct {
 	MaxFaults   int
 	FileAssign  bool
 	HandlerFlip bool
+	Writes      bool // files written mid-build and in scrambled order at the end
 }
 
 // Front draws a front-end schedule: 1/4 plain (source order, nothing lazy), the rest with
@@ -78,6 +79,15 @@ func Front(rt *rapid.T, spec FrontSpec) *run.Front {
 		n := rapid.IntRange(1, 8).Draw(rt, "nassign")
 		for i := 0; i < n; i++ {
 			f.FileAssign = append(f.FileAssign, rapid.IntRange(0, 3).Draw(rt, "file"))
+		}
+	}
+	if spec.Writes {
+		// (files are not written in the middle of a build: gogen fixes the name of an import
+		// when the file is first written, so declarations made afterwards cannot be taken
+		// into account - a use the property does not cover)
+		f.Rewrites = rapid.IntRange(0, 2).Draw(rt, "rewrites")
+		if rapid.Bool().Draw(rt, "reorder_writes") {
+			f.WriteOrder = []int{rapid.IntRange(0, 3).Draw(rt, "wrot"), rapid.IntRange(0, 1).Draw(rt, "wrev")}
 		}
 	}
 	if spec.HandlerFlip {
@@ -145,6 +155,15 @@ func SimplifyFront(f *run.Front) []*run.Front {
 	}
 	if f.XGoBuiltin {
 		add(func(c *run.Front) { c.XGoBuiltin = false })
+	}
+	if len(f.EarlyWrites) > 0 {
+		add(func(c *run.Front) { c.EarlyWrites = nil })
+	}
+	if f.Rewrites > 0 {
+		add(func(c *run.Front) { c.Rewrites = 0 })
+	}
+	if len(f.WriteOrder) > 0 {
+		add(func(c *run.Front) { c.WriteOrder = nil })
 	}
 	return out
 }
